@@ -71,6 +71,12 @@ def invariance_case(rec, seedt, backend, nmax, cuda):
     sched = str(rng.choice(gen.SCHEDS))
     x = gen.record(rng, N, str(rng.choice(["white", "ar1", "walk", "sine+noise"])))
     y = gen.second_channel(rng, x, "mixed") if cross else None
+    # the record's unit is arbitrary: the same samples 2^k times smaller or larger
+    uexp = int(rng.choice([0, 0, 0, -200, -100, -40, 40, 130]))
+    if uexp:
+        x = x * 2.0 ** uexp
+        y = y * 2.0 ** uexp if y is not None else None
+        rec.count("invariance_cases_in_rescaled_units")
     rms = float(np.std(x)) or 1.0
     amp = rms * 10 ** rng.uniform(2, 8)
     deg = int(rng.integers(0, order + 1))
@@ -79,7 +85,7 @@ def invariance_case(rec, seedt, backend, nmax, cuda):
         if where in ("y", "both") else 0.0
     desc = {"kind": "invariance", "seed": list(seedt), "backend": backend, "N": N, "order": order,
             "cross": cross, "where": where, "win": win, "sched": sched, "amp_over_rms": amp / rms,
-            "trend_degree": deg, "nmax": nmax, "cuda": cuda}
+            "trend_degree": deg, "nmax": nmax, "cuda": cuda, "unit_exp": uexp}
     rec.case(desc, nontrivial=False)
     kw = dict(order=order, scheduler=sched, backend=backend,
               Lmin=int(rng.choice([1, 1, 4, 32])), Jdes=int(rng.choice([4, 12, 40])),
@@ -123,6 +129,44 @@ def invariance_case(rec, seedt, backend, nmax, cuda):
                           f" bin {j} f={rt.f[j]:.5g} L={L} K={st.size}: {name} differs from the "
                           f"untrended estimate by {err:.3e} > budget {bound:.3e}; {sched}, {win}")
             break
+    if not cuda:
+        _single_bin_route(rec, rng, trended, xb, yb, xt, yt, fs, kw, win, order, backend, cross,
+                          f"order {order}, degree-{deg} trend on {where} (amp {amp / rms:.1e} x rms), {win}")
+
+
+def _single_bin_route(rec, rng, trended, xb, yb, xt, yt, fs, kw, win, order, backend, cross, tagmsg):
+    """The same statement through compute_single_bin: one bin of the trended record, at a requested
+    L or resolution, against the reference model evaluated on the untrended record."""
+    from speckit.analysis import SpectrumAnalyzer
+    N = xb.shape[0]
+    L = int(min(N, rng.choice([order + 2, 8, 64, max(order + 2, N // 3), N])))
+    L = max(L, order + 2)
+    fq = float(rng.uniform(0.0, 0.5)) * fs
+    try:
+        an = SpectrumAnalyzer(trended, fs, **kw)
+        r = an.compute_single_bin(fq, L=L) if rng.random() < 0.7 else \
+            an.compute_single_bin(fq, fres=fs / L)
+    except ValueError as e:
+        rec.blocked(f"single-bin rejected: {e}")
+        return
+    Lr = int(r.L[0])
+    st = np.asarray(r.D[0]).astype(np.int64)
+    w = api.harness_window(win, Lr)
+    om = 2 * math.pi * float(r.f[0]) / fs
+    ref_b = refmodel.ref_stats(xb, yb, st, Lr, w, om, order)
+    ref_t = refmodel.ref_stats(xt, yt, st, Lr, w, om, order)
+    ref = dict(ref_b)
+    for k in ("bXX", "bYY", "bmu", "bM2"):
+        ref[k] = ref_b[k] + ref_t[k]
+    got = (r.XX[0], r.YY[0] if cross else r.XX[0], r.XY[0].real, r.XY[0].imag, r.M2[0])
+    bad, worst = refmodel.compare_stats(got, ref)
+    rec.count(f"invariance_single_bin[{backend}]")
+    rec.ratio(f"invariance_err_over_budget[{backend}]", worst)
+    for name, err, bound in bad:
+        rec.violation(f"trend-not-removed:{backend}",
+                      f"compute_single_bin(f={fq:.5g}, L={Lr}), {tagmsg}: {name} differs from the "
+                      f"untrended estimate by {err:.3e} > budget {bound:.3e}")
+        break
 
 
 def sensitivity_case(rec, seedt, backend):
